@@ -793,7 +793,8 @@ def search(ctx, state):
     for v in (256, 128):
         r = RATE[v]
         for ch in ([r], [r - 1, 1], [r, 5], [2 * r], [3, r - 3, r], [0, r + 1, r - 1], [1] * 5, []):
-            for sq in ([32], [r, 1], [r - 1, 2, r]):
+            # incl. several requests served from one buffered block (C20-m3: early return that skips the s_inc[25] update)
+            for sq in ([32], [r, 1], [r - 1, 2, r], [20, 20, 20], [1, 1, 1, r], [r + 5, 3, 3, 3, r], [7] * 6):
                 msg = rbytes(rng, sum(ch)); off = 0; ops = []
                 for k in ch:
                     ops.append("a" + msg[off:off + k].hex()); off += k
